@@ -18,6 +18,7 @@ import (
 	"github.com/artela-network/artela-evm/vm"
 	atypes "github.com/artela-network/aspect-core/types"
 	"github.com/ethereum/go-ethereum/common"
+	"github.com/holiman/uint256"
 )
 
 func genDiffCase(r *Rng, size int) *diffCase {
@@ -196,6 +197,10 @@ func driveConc(seed uint64, n int, size int, em *Emitter) {
 		// C16: an execution depends on its own context only — not on what other EVMs (same chain configuration value, same height
 		// and time, a block context that differs in one field) ran before it in this process
 		em.Op("C16,C17", "S det-interleaved", detInterleaved(r))
+
+		// C16: what one instance recorded and handed back (call tree with calldata and return data of every call, the bytes
+		// returned to the embedder) is not changed by another instance running afterwards on its own state database
+		em.Op("C16,C17", "S recorded-stable", recordedStable(r, cases))
 
 		// the Artela precompiles from several instances at once (context reads, JIT sender lookups and context writes, which
 		// carry the caller they are made for): every instance must see what the model of the precompile says for it alone
@@ -442,4 +447,79 @@ func concArtela(r *Rng, em *Emitter, seed uint64, b int) {
 		em.Count(fmt.Sprintf("conc:artela:%x:%s:gas=%d", c.addrB, callKindNames[c.hops[len(c.hops)-1]], c.lastGas))
 	}
 	em.Op("C17", "S conc-artela-same", strings.ReplaceAll(v, " ", "_"))
+}
+
+// recordedStable: a first instance runs a program whose calls end in REVERT / RETURN with data taken from memory; its call tree
+// and returned bytes are rendered, then other instances run generated programs (which use memory), and the first instance's
+// records are rendered again.
+func recordedStable(r *Rng, others []*diffCase) string {
+	render := func(e *vm.EVM, ret []byte) string {
+		var sb strings.Builder
+		ct := e.Tracer().CallTree()
+		for i := uint64(0); ; i++ {
+			c := ct.FindCall(i)
+			if c == nil {
+				break
+			}
+			fmt.Fprintf(&sb, "%d:%x/%x/%d/%v;", i, c.Data, c.Ret, c.RemainingGas, c.Err)
+		}
+		fmt.Fprintf(&sb, "ret=%x", ret)
+		return sb.String()
+	}
+	for round := 0; round < 3; round++ {
+		sdb := newStateDB()
+		env := newEnv(forkNames[4+r.Intn(8)], nil, nil, sdb, nil)
+		env.evm.CloseAspectCall()
+		root := common.BytesToAddress([]byte{0xc0, 8, 0})
+		kids := []common.Address{common.BytesToAddress([]byte{0xc0, 8, 1}), common.BytesToAddress([]byte{0xc0, 8, 2}), common.BytesToAddress([]byte{0xc0, 8, 3})}
+		for j, k := range kids {
+			// fill 32..96 bytes of memory with a byte of its own, end in REVERT / RETURN of a window of it
+			a := &Asm{}
+			fill := new(uint256.Int).SetBytes(bytesOf(byte(0xa1+j), 32))
+			for w := 0; w < 1+r.Intn(3); w++ {
+				a.Push(fill).PushU(uint64(32 * w)).Op(opMSTORE)
+			}
+			a.PushU(uint64(8 + r.Intn(56))).PushU(uint64(r.Intn(8))).Op([]byte{opREVERT, opREVERT, opRETURN}[r.Intn(3)])
+			sdb.CreateAccount(k)
+			sdb.SetCode(k, a.Bytes())
+		}
+		a := &Asm{}
+		for _, k := range kids {
+			a.PushU(0).PushU(0).PushU(uint64(r.Intn(33))).PushU(0).PushU(0).PushBytes(k[:]).Op(opGAS, opCALL, opPOP)
+		}
+		a.Push(new(uint256.Int).SetBytes(bytesOf(0xee, 32))).PushU(0).Op(opMSTORE)
+		a.PushU(uint64(4 + r.Intn(28))).PushU(0).Op([]byte{opREVERT, opRETURN}[r.Intn(2)])
+		sdb.CreateAccount(root)
+		sdb.SetCode(root, a.Bytes())
+		if env.rules.IsBerlin {
+			sdb.AddAddressToAccessList(root)
+		}
+		ret, _, _ := env.evm.Call(context.Background(), vm.AccountRef(callerAddr), root, r.Bytes(r.Intn(40)), 3_000_000, new(big.Int))
+		before := render(env.evm, ret)
+		for k := 0; k < 3 && len(others) > 0; k++ {
+			runFork(others[r.Intn(len(others))], 2_000_000, false)
+		}
+		// and one that certainly writes memory
+		sdb2 := newStateDB()
+		env2 := newEnv(forkNames[4+r.Intn(8)], nil, nil, sdb2, nil)
+		env2.evm.CloseAspectCall()
+		w := common.BytesToAddress([]byte{0xc0, 8, 9})
+		sdb2.CreateAccount(w)
+		sdb2.SetCode(w, []byte{0x7f, 0xbb, 0xbb, 0xbb, 0xbb, 0xbb, 0xbb, 0xbb, 0xbb, 0xbb, 0xbb, 0xbb, 0xbb, 0xbb, 0xbb, 0xbb, 0xbb, 0xbb, 0xbb, 0xbb, 0xbb, 0xbb, 0xbb, 0xbb, 0xbb, 0xbb, 0xbb, 0xbb, 0xbb, 0xbb, 0xbb, 0xbb, 0xbb,
+			opPUSH1, 0, opMSTORE, 0x7f, 0xbb, 0xbb, 0xbb, 0xbb, 0xbb, 0xbb, 0xbb, 0xbb, 0xbb, 0xbb, 0xbb, 0xbb, 0xbb, 0xbb, 0xbb, 0xbb, 0xbb, 0xbb, 0xbb, 0xbb, 0xbb, 0xbb, 0xbb, 0xbb, 0xbb, 0xbb, 0xbb, 0xbb, 0xbb, 0xbb, 0xbb, 0xbb,
+			opPUSH1, 32, opMSTORE, opSTOP})
+		env2.evm.Call(context.Background(), vm.AccountRef(callerAddr), w, nil, 100000, new(big.Int))
+		if after := render(env.evm, ret); after != before {
+			return "records_of_a_finished_execution_changed_while_other_instances_ran:" + strings.ReplaceAll(before, " ", "_") + "_VS_" + strings.ReplaceAll(after, " ", "_")
+		}
+	}
+	return "same"
+}
+
+func bytesOf(b byte, n int) []byte {
+	out := make([]byte, n)
+	for i := range out {
+		out[i] = b
+	}
+	return out
 }
